@@ -66,7 +66,7 @@ var props = []prop{
 	{ID: "C05", Level: "exploration", Shards: 16},
 	{ID: "C06", Level: "model_checking", Shards: 16},
 	{ID: "C07", Level: "model_checking", Overlay: true, Shards: 16, QuickBudget: 45, ThoroughBudget: 900, RacePkg: "c07race"},
-	{ID: "C08", Level: "model_checking", Overlay: true, Shards: 16, QuickBudget: 90, ThoroughBudget: 900, RacePkg: "subrace", RaceBodies: "C08-"},
+	{ID: "C08", Level: "model_checking", Overlay: true, Shards: 16, QuickBudget: 120, ThoroughBudget: 900, RacePkg: "subrace", RaceBodies: "C08-"},
 	{ID: "C09", Level: "model_checking", Overlay: true, Shards: 16},
 	{ID: "C10", Level: "exploration", Shards: 16},
 	{ID: "C11", Level: "exploration", Shards: 16},
